@@ -85,8 +85,8 @@ func Harness_C20_linear_args() {
 func Harness_C20_linear_attempt_deadline() {
 	verifBoundSelectDefaults(2)
 	const count = 2
-	ctx, cancel := context.WithTimeout(context.Background(), time.Second)
-	_ = cancel
+	ctx, expire := verifDeadlineCtx(context.Background())
+	go func() { expire() }()
 	c := LinearAttempt(ctx, time.Millisecond, count)
 	received, afterExpiry := 0, 0
 	closedSeen := false
@@ -113,8 +113,7 @@ func Harness_C20_linear_attempt_deadline() {
 func Harness_C20_deadline_after_expiry() {
 	verifBoundSelectDefaults(1)
 	const count = 3
-	ctx, cancel := context.WithTimeout(context.Background(), time.Second)
-	_ = cancel
+	ctx, expire := verifDeadlineCtx(context.Background())
 	c := LinearAttempt(ctx, time.Millisecond, count)
 	received, expiredAt, afterExpiry := 0, -1, 0
 	closedSeen := false
@@ -132,7 +131,7 @@ func Harness_C20_deadline_after_expiry() {
 		}
 	}()
 	go func() {
-		<-ctx.Done()
+		expire()
 		verifAtomic(func() { expiredAt = received })
 	}()
 	verifFinally(func() {
